@@ -1,0 +1,50 @@
+//go:build verif
+
+// Round 5, area F: the two writers nsqd's statsdLoop stacks on its UDP socket (C13 anchors nsqd/statsd.go), checked by nsqvc.
+// Comment-only file. Assumed library contract: time.NewTicker inside this package (lib/trusted/r5F.spec).
+
+package writers
+
+//@ func NewBoundaryBufferedWriter(w io.Writer, size int) *BoundaryBufferedWriter
+//@   props C13
+//@   nochan
+//@   ensures[fresh-writer] result != nil && fresh(result) && result.bw != nil
+//@   modifies
+
+//@ func (b *BoundaryBufferedWriter) Flush() error
+//@   props C13
+//@   nochan
+//@   requires b != nil && b.bw != nil
+//@   modifies
+
+//@ func NewSpreadWriter(w io.Writer, interval time.Duration, exitCh chan int) *SpreadWriter
+//@   props C13
+//@   nochan
+//@   ensures[fresh-writer] result != nil && fresh(result) && result.w == w && result.interval == interval && result.exitCh == exitCh && len(result.buf) == 0
+//@   modifies
+
+// Write keeps a private copy of the packet for the next Flush: the caller may reuse p.
+//@ func (s *SpreadWriter) Write(p []byte) (int, error)
+//@   props C13
+//@   nochan
+//@   requires s != nil
+//@   ensures[accepted-whole] result0 == len(p) && result1 == nil
+//@   ensures[queued-last] len(s.buf) == old(len(s.buf)) + 1 && len(s.buf[len(s.buf) - 1]) == len(p) && fresh(s.buf[len(s.buf) - 1])
+//@   modifies s.buf, elems([]byte)
+
+// Flush hands EVERY buffered packet to the underlying writer, in order, one Write each, and leaves the buffer empty; with nothing
+// buffered it writes nothing. requires[interval-longer-than-the-backlog]: the pause between two writes is interval / len(buf) and is
+// handed to time.NewTicker, which PANICS for a non-positive duration. nsqd passes interval = --statsd-interval minus one second, so a
+// statsd interval of one second or less kills the daemon at its first stats push: OBSERVATION O1 of the notes (reproduced; with
+// fixes/0001 the precondition can be dropped). Without the precondition the obligation
+// `(*writers.SpreadWriter).Flush/requires[time.NewTicker.positive-interval]` fails (sat) on the unchanged code.
+//@ func (s *SpreadWriter) Flush()
+//@   props C13
+//@   requires s != nil && s.w != nil
+//@   requires[interval-longer-than-the-backlog] len(s.buf) > 0 ==> s.interval >= len(s.buf)
+//@   ensures[buffer-emptied] len(s.buf) == 0
+//@   ensures[one-write-per-packet] wCalls == old(wCalls) + old(len(s.buf))
+//@   modifies s.buf, wN, wOut, wCalls, wErrs, wLastErr, wForeign, chanstore(int), chanstore(time.Time)
+//@   loop 0
+//@     invariant[buffer-kept] s.buf == old(s.buf) && s.w != nil && s.w == old(s.w) && ticker != nil
+//@     invariant[one-write-each] wCalls == old(wCalls) + rangeindex + 1 && rangeindex < len(s.buf)
